@@ -150,10 +150,13 @@ def frame_obligations(ctx, py, prefix, modules):
     'result == spec(arguments)' is only meaningful for a function that keeps no state between calls and leaves its
     arguments alone, so each property re-establishes the frame of the modules it puts under contract."""
     from pvx import deps as _deps
+    from props import forms as _forms_battery
     _deps.external_binding_obligations(ctx, py, prefix, modules)
     for (m, f) in sorted(frame_table(py)):
         if m in modules:
             emit_frame(ctx, py, prefix, m, f)
+    # argument forms of the same modules (bounded): batches of 1 / long batches, integer-typed values, labels in other orders ...
+    _forms_battery.forms_obligations(ctx, py, prefix, modules)
 
 
 def _frames(ctx, py):
@@ -740,6 +743,8 @@ def _standin(ctx, py):
                 fails.append(dict(call=name, what="raised %r in the reversed pass" % (exc,)))
     ctx.standin("C19.rt.frame_repeat_order", "%d public call scenarios over all ten modules (ndarray / DataFrame / Series arguments, writable float arrays, both altitude modes, seeded RNG): deep bitwise snapshot of every argument before / after, call twice with equal inputs, arguments overwritten in place and the same objects passed again, then all calls again in reverse order" % len(calls),
                 4 * len(calls), fails, time_s=time.time() - t0)
+    from props import forms as _forms_battery
+    _forms_battery.forms_obligations(ctx, py, "C19", set(MODULES))
     t1 = time.time()
     bad = _forms(py)
     ctx.standin("C19.rt.forms", "scalar vs stacked vs list vs Series / DataFrame argument forms of 18 functions give the same values (bit-equal or 1e-14 relative)", 40,
